@@ -86,10 +86,14 @@ fn line_family(ctx: &mut Ctx, ps: &mut Parsers, sample: &[u32], all: &[u32]) {
     let thorough = ctx.is_thorough();
     while idx < total {
         alphabet::nth(LINES, idx, &mut s);
-        for head in HEADS {
+        let short = idx < alphabet::count_upto(LINES.len(), 3);
+        for (hi, head) in HEADS.iter().enumerate() {
+            // the 4-line sequences (thorough) go under no head and one other head in rotation
+            if !short && hi != 0 && hi != 1 + (idx as usize % (HEADS.len() - 1)) {
+                continue;
+            }
             let text = format!("{head}{s}");
             // all 192 subsets for the bracketed-key inputs of up to 3 lines (thorough); the 4-line sequences use the sample
-            let short = idx < alphabet::count_upto(LINES.len(), 3);
             let exts: &[u32] = if thorough && short && text.contains('[') { all } else { sample };
             for e in exts {
                 for conv in ["bundled", "empty"] {
